@@ -204,6 +204,51 @@ theorem poll_delivers (s : State) (u : Nat) (hun : u < s.n) (hp : (s.th u).pc = 
 example : ((run (run init (interruptInRound.take 7)) ((interruptInRound.take 19).drop 7)).th 0).intr = true :=
   (interrupt_not_lost _ _ 0 (by decide) (by decide) (by decide)).1
 
+/-! ## A stale unpark token on the repaired handshake
+
+`C15.staleToken_if_violates` shows that before the K15a repair a dispatch poll that parks ONCE violates the scan clause
+as soon as the thread holds a stale token.  On the repaired handshake the same variant (`stepIf`: `parking → retract`)
+is caught by the re-check — on this schedule the thread goes `retract → recheck → republish → exitCheck → parking`,
+inside the protocol all the time (a TEST by evaluation, not a theorem about `stepIf`; the code is tied to `step`, the
+`while` version, by the obligation `park_is_in_a_loop`). -/
+
+def stepIf (s : State) (t : Tid) (a : Act) : Option State :=
+  if t < s.n then
+    match a, (s.th t).pc with
+    | .step, .parking .poll =>
+        if (s.th t).token then some (s.put t { s.th t with token := false, pc := .retract .poll }) else none
+    | _, _ => step s t a
+  else none
+
+def runIf (s : State) : List (Tid × Act) → State
+  | [] => s
+  | (t, a) :: rest =>
+      match stepIf s t a with
+      | none => s
+      | some s' => runIf s' rest
+
+/-- Thread 1 sits in a primitive during thread 0's first round (keeps the token), polls and parks in the second. -/
+def staleTokenR : List (Tid × Act) :=
+  [(0, .spawn)] ++ List.replicate 10 (0, .step) ++ [(1, .callPrim), (0, .setGlobal)] ++ List.replicate 24 (0, .step) ++
+  List.replicate 4 (1, .step) ++ [(0, .setGlobal)] ++ List.replicate 8 (0, .step) ++
+  [(1, .poll)] ++ List.replicate 2 (1, .step) ++ List.replicate 3 (0, .step)
+
+theorem staleTokenR_parked_with_token :
+    (run init staleTokenR).view.map (fun x => (x.1, x.2.2.2.2.1)) = [(.acc .env 0 1, 0), (.parking .poll, 1)] ∧
+    ((run init staleTokenR).th 1).token = true := by decide
+
+/-- The code (`while`): `park()` returns, the thread re-tests and parks again. -/
+theorem staleTokenR_loop :
+    (run init (staleTokenR ++ List.replicate 2 (1, .step))).view.map (fun x => (x.1, x.2.2.2.2.1)) =
+      [(.acc .env 0 1, 0), (.parking .poll, 1)] := by decide
+
+/-- The `if` variant: the thread retracts, re-checks, sees STOP, re-publishes and parks — never outside the protocol. -/
+theorem staleTokenR_if_recaught :
+    (List.range 6).all (fun k =>
+      (runIf init (staleTokenR ++ List.replicate k (1, .step))).scanOk &&
+      ((runIf init (staleTokenR ++ List.replicate k (1, .step))).th 1).pc.safe) = true ∧
+    ((runIf init (staleTokenR ++ List.replicate 5 (1, .step))).th 1).pc = .parking .poll := by decide
+
 /-! ## Non-vacuity of the theorems -/
 
 example : 0 < ((run init exitRaceR).th 1).scanned ∧ ((run init exitRaceR).th 1).pc.safe = true :=
